@@ -41,7 +41,11 @@ META = {
             "replayed on real processes.",
     "note": "Trusted: TLC; the shim's view of the libc calls (cross-checked with strace in the thorough tier); POSIX "
             "advisory record lock semantics as modelled (locks die with the process / on close, F_GETLK ignores own "
-            "locks, locks work on unlinked inodes); one guard incarnation per path (inode = name). The in-process "
+            "locks, locks work on unlinked inodes); one guard incarnation per path (inode = name) in ProcessState.tla - "
+            "runs with a later incarnation (another process re-using the path while a stale cleaner holds the old "
+            "files) and runs with injected failures are judged by the property layer only. The refusal tail of the "
+            "F_GETLK(state) step of ProcessCleaner::new cannot be provoked with the unchanged protocol and is assumed "
+            "(close what is open); the property layer judges the real calls of such a refusal anyway. The in-process "
             "tracker map (monitor inside the guard's own process) is only exercised in free runs, not modelled. "
             "Node::list level: listing step + mapping; node details handling is C04's.",
     "design_ref": "DESIGN.md 5 C07, 3.3, 3.4, 3.6, 7 (hypothesis 1)",
@@ -180,7 +184,7 @@ class Run:
 
     def proc(self, p):
         if p not in self.procs:
-            role = "guard" if p == "G" else ("monitor" if p.startswith("M") else "cleaner")
+            role = "guard" if p.startswith("G") else ("monitor" if p.startswith("M") else "cleaner")
             self.procs[p] = shimctl.Proc([BIN, role, "--dir", self.tok, "--name", NAME], self.roots, p, self.log,
                                          self.count, step_dir=None if p in self.free else self.step_dir,
                                          stderr_path=os.path.join(self.dir, "stderr.txt"))
@@ -192,7 +196,7 @@ class Run:
         """Sends the next command of process p's life cycle; returns False if it has none left."""
         pr = self.proc(p)
         st = self.state[p]
-        if p == "G":
+        if p.startswith("G"):
             if st == "new":
                 self.ev(p, "create_begin"); pr.send("create"); self.state[p] = "creating"
             elif st == "created":
@@ -869,7 +873,9 @@ def run(ctx):
     ctx.assumptions += [
         "POSIX advisory record locks as modelled: released on process death and on close of any descriptor of the "
         "file by the holder, F_GETLK does not report the caller's own lock, locks work on unlinked inodes",
-        "one guard incarnation per path in every run (inode identity = file name)",
+        "one guard incarnation per path in every run that is validated against ProcessState.tla (inode identity = "
+        "file name); later-incarnation runs are validated by the property layer only",
+        "a fault-injected call (sysshim FAIL_AT) is not performed and returns -1 with the chosen errno",
         "system calls are atomic steps; only calls on the three token files are steps",
         "processes run as root (observers may open a read-only file for writing); the unprivileged variant is "
         "model-checked only",
@@ -923,18 +929,19 @@ def run(ctx):
         npos[cname] = len(keys)
         variants = [("pm", "M"), ("pm", "G"), ("cal", "G")] if quick else [("pm", "M"), ("pm", "G"), ("cal", "M"), ("cal", "G")]
         if cfgd.get("cleaners"):
-            if len(keys) > 4000:
-                keys = rng.sample(keys, 4000)
+            cap = 4000 if cfgd.get("monitors") else 800
+            if len(keys) > cap:
+                keys = rng.sample(keys, cap)
             variants = [("pm", "M"), ("pm", "G")]
         for i, key in enumerate(keys):
             for (lvl, cont) in variants:
                 jobs.append((f"{cname}-{i}-{lvl}-{cont}", best[key], {m: lvl for m in cfgd.get("monitors", [])}, cont))
     ctx.coverage["positions"] = npos
-    grid, faults = refusal_jobs(ext, quick, rng) if ext["CleanerAcquire"] and ext["CleanerDrop"] else ([], [])
+    grid, faults, reinc = refusal_jobs(ext, quick, rng) if ext["CleanerAcquire"] and ext["CleanerDrop"] else ([], [], [])
     runs, fruns = [], []
     with concurrent.futures.ThreadPoolExecutor(max_workers=10) as ex:
         futs = [ex.submit(replay_schedule, ctx, *j) for j in jobs] + [ex.submit(grid_run, ctx, *j) for j in grid]
-        ffuts = [ex.submit(fault_run, ctx, *j) for j in faults]
+        ffuts = [ex.submit(fault_run, ctx, *j) for j in faults] + [ex.submit(reinc_run, ctx, *j) for j in reinc]
         for f in futs:
             runs.append(f.result())
         for f in ffuts:
@@ -947,7 +954,8 @@ def run(ctx):
     vp.log(f"C07: node level runs done at {ctx.elapsed():.0f}s")
     ctx.evaluations += len(runs) + len(nruns)
     ctx.distinct += len({json.dumps(r["records"], sort_keys=True) for r in runs + nruns})
-    vacuous = refusal_coverage(ctx, [r for r in runs if r.get("kind") == "grid"], fruns)
+    vacuous = refusal_coverage(ctx, [r for r in runs if r.get("kind") == "grid"],
+                               [r for r in fruns if r["kind"] == "fault"], [r for r in fruns if r["kind"] == "reinc"])
     for r in [r for r in runs + nruns if r["hang"]][:3]:
         ctx.report(vp.Violation(f"a real process hung during the stepped replay: {r['hang']}",
                                 replay={"schedule": r["schedule"], "levels": r["levels"],
@@ -977,7 +985,8 @@ def run(ctx):
                      f"interleaving tail {describe(chunk[k])[-14:]}")
             break
     ctx.coverage["replays"] = {"stepped_and_free_runs": len(runs), "node_level_runs": len(nruns) - len(fruns),
-                               "two_cleaner_grid_runs": len(grid), "fault_injected_attempts": len(fruns),
+                               "two_cleaner_grid_runs": len(grid), "fault_injected_attempts": len(faults),
+                               "later_incarnation_runs": len(reinc),
                                "diverged_from_model_schedule": ndiv}
     vp.log(f"C07: state layer validated at {ctx.elapsed():.0f}s")
     ctx.coverage["real_signatures"] = {sig_str(s): len(v) for s, v in sorted(real.items())}
@@ -1114,6 +1123,50 @@ def fault_run(ctx, tag, k, errno, owner_first):
     return run_result(r, "fault", tag, [k, errno, owner_first], levels, hang, recs)
 
 
+def reinc_run(ctx, tag, a, early):
+    """A later incarnation: the first guard process is dead, the stale cleaner C2 has performed a calls of its
+    attempt (it may hold descriptors of the old files), C1 cleans up completely, ANOTHER process G2 creates a guard
+    for the same path and runs; then C2 continues. early: G2 tries first while C1 still owns the old files (its
+    creation is refused). Property layer only: ProcessState.tla assumes one incarnation per path."""
+    levels = {"M1": "pm", "M2": "cal"}
+    r = Run(ctx, tag, levels, stepped=True, free=("G", "G2", "M1", "M2"))
+    hang = None
+    try:
+        r.run_cmd("G")
+        r.crash("G")
+        r.steps("C2", a)
+        r.proc("C1")
+        r.finish("C1")
+        if early:
+            r.run_cmd("G2")                 # AlreadyExists: the old files are still there
+            r.run_cmd("M1")
+        for p in ("C1",):
+            if r.state.get(p) == "owner":
+                r.finish(p, whole_life=True)
+        if not early:
+            r.run_cmd("G2")
+        r.run_cmd("M1")
+        r.run_cmd("M2")
+        r.finish("C2")
+        r.run_cmd("M1")
+        r.run_cmd("M2")
+        if r.state.get("C2") == "owner":
+            r.finish("C2", whole_life=True)
+        r.run_cmd("M1")
+        r.run_cmd("M2")
+        if r.state.get("G2") == "created":
+            r.run_cmd("G2")                 # orderly drop of the new incarnation
+        r.run_cmd("M1")
+        recs = r.records()
+    except shimctl.Hang as e:
+        hang = str(e)
+        recs = r.records()
+    finally:
+        r.close()
+    shutil.rmtree(r.dir, ignore_errors=True)
+    return run_result(r, "reinc", tag, [a, early], levels, hang, recs)
+
+
 def refusal_jobs(ext, quick, rng):
     """(grid jobs, fault jobs) derived from the extracted call sequences."""
     nstate, nacq, ndrop = ext["NState"], len(ext["CleanerAcquire"]), len(ext["CleanerDrop"])
@@ -1123,9 +1176,9 @@ def refusal_jobs(ext, quick, rng):
         avals = sorted({nstate, nstate + max(nacq - 3, 0), total - 1})
     else:
         avals = list(range(0, total + 1))
-    # quick: the two continuations alternate over the grid, thorough: both at every point
+    # the two continuations alternate over the grid; thorough: both wherever the loser has passed its state() check
     grid = [(f"grid-{a}-{b}-{v}", a, b, v) for a in avals for b in range(0, total + ndrop + 1)
-            for v in ("complete", "kill") if not quick or (v == "kill") == ((a + b) % 2 == 1)]
+            for v in ("complete", "kill") if (not quick and a >= nstate) or (v == "kill") == ((a + b) % 2 == 1)]
     fails = [i + 1 for i, x in enumerate(ext["AcquireCalls"]) if x["op"] in ("open", "lock", "lockw")]
     faults = []
     for k in fails:
@@ -1134,14 +1187,16 @@ def refusal_jobs(ext, quick, rng):
         for en in errs:
             for owner_first in (False, True):
                 faults.append((f"fault-{k}-{en}-{int(owner_first)}", k, en, owner_first))
-    return grid, faults
+    reinc = [(f"reinc-{a}-{int(e)}", a, e) for a in (range(nstate, total) if quick else range(0, total + 1))
+             for e in (False, True) if not e or a in (nstate, total - 1)]
+    return grid, faults, reinc
 
 
-def refusal_coverage(ctx, gruns, fruns):
+def refusal_coverage(ctx, gruns, fruns, iruns=()):
     """Vacuity of the refused-cleaner clauses: the real runs must contain refusals of every documented kind, losers
     that ran their refusal tail, attempts with an injected failure, and verdicts asked while a cleaner was busy."""
     res, tails, injected, asked = {}, 0, 0, 0
-    for r in gruns + fruns:
+    for r in list(gruns) + list(fruns) + list(iruns):
         trying, busy = set(), set()
         for x in r["records"]:
             if x["k"] == "ev" and x["ev"] == "cstart":
@@ -1169,6 +1224,8 @@ def refusal_coverage(ctx, gruns, fruns):
             return "vacuous: no lost lock race / no verdict while a cleaner was busy in the two-cleaner grid"
     if fruns and not injected:
         return "vacuous: no failure was injected into any cleaner attempt"
+    if iruns and not res.get("StillAlive"):
+        return "vacuous: no stale cleaner was refused with StillAlive by a later incarnation of the guard"
     return None
 
 
@@ -1385,9 +1442,9 @@ def replay(ctx, path):
     body = json.load(open(path))
     print(json.dumps({k: body.get(k) for k in ("what", "signature", "schedule", "levels", "real_interleaving")}, indent=1))
     sched = body.get("model_schedule") or body.get("schedule")
-    if body.get("kind") in ("grid", "fault") and not body.get("model_schedule"):
+    if body.get("kind") in ("grid", "fault", "reinc") and not body.get("model_schedule"):
         vp.cargo_build(["drv-procstate"])
-        rr = (grid_run if body["kind"] == "grid" else fault_run)(ctx, "replay", *body["schedule"])
+        rr = {"grid": grid_run, "fault": fault_run, "reinc": reinc_run}[body["kind"]](ctx, "replay", *body["schedule"])
         print("re-executed on the current tree:")
         print(" ", " ".join(describe(rr)))
         print("  answers:", rr["answers"], "hang:", rr["hang"])
